@@ -271,6 +271,11 @@ pub async fn main(args: &[String]) {
                 *codes.entry(r.error_code.split(':').next().unwrap_or("").to_string()).or_default() += 1;
             }
             *tags.entry(stmt.tag.split(':').take(2).collect::<Vec<_>>().join(":")).or_default() += 1;
+            if stmt.tag.starts_with("dup") || stmt.tag.starts_with("dry:dup") {
+                for seg in stmt.tag.split(':').filter(|x| *x != "dup" && *x != "dry") {
+                    *tags.entry(format!("dup-spelling:{seg}:{}", r.class)).or_default() += 1;
+                }
+            }
             if (r.class == "refused" || r.class == "dry_run") && !before.elems.is_empty() {
                 refused_nontrivial += 1;
             }
